@@ -30,7 +30,7 @@ void vf_final(void);
 void __vf_co_start(int t); int __vf_co_resume(void);
 void __vf_global_ctors(void);
 /* happens-before monitor hooks (no-ops unless rt_hb.c is linked with VF_HB) */
-void __vf_hb_acquire(void *obj); void __vf_hb_release(void *obj); void __vf_hb_fork(int child); void __vf_hb_join(int child);
+void __vf_hb_acquire(void *obj); void __vf_hb_release(void *obj); void __vf_hb_fork(int child); void __vf_hb_join(int child); void __vf_hb_init(void);
 
 /* ---- mutex ---- */
 void __vf_mutex_lock_pre(void *m){ w_kind[__vf_cur] = W_MUTEX; w_obj[__vf_cur] = m; }
@@ -144,6 +144,7 @@ void vf_run(void){
   }
 }
 int main(void){
+  __vf_hb_init();
   __vf_global_ctors();
   for (int j = 0; j < VF_PRESTART; j++) { vf_started[j] = 1; __vf_co_start(j); }
   vf_run();
